@@ -8,9 +8,12 @@ import (
 	"path/filepath"
 )
 
+var workDir string
+
 func main() {
 	out := flag.String("out", "/verif/lean/BM/Gen", "output directory for generated Lean files")
 	only := flag.String("only", "", "generate only this file (entities|...)")
+	flag.StringVar(&workDir, "work", "/verif/work", "directory for non-Lean artefacts (vocabularies)")
 	flag.Parse()
 	if err := os.MkdirAll(*out, 0o755); err != nil {
 		fatal("%v", err)
@@ -23,6 +26,7 @@ func main() {
 		{"scanner", genScanner},
 		{"unicode", genUnicode},
 		{"defaults", genDefaults},
+		{"handlers", genHandlers},
 	}
 	for _, g := range gens {
 		if *only == "" || *only == g.name {
